@@ -118,6 +118,7 @@ struct Running {
 
 fn finish_child(r: Running, timed_out: bool) -> Vec<JobResult> {
     let Running { mut child, label, .. } = r;
+    let pid = child.id();
     if timed_out {
         let _ = child.kill();
     }
@@ -130,6 +131,15 @@ fn finish_child(r: Running, timed_out: bool) -> Vec<JobResult> {
         let _ = e.read_to_string(&mut err);
     }
     let status = child.wait().ok();
+    // a child that was killed or that crashed leaves its run directories behind
+    if let Ok(rd) = std::fs::read_dir("/dev/shm") {
+        let prefix = format!("dsim-{pid}-");
+        for e in rd.flatten() {
+            if e.file_name().to_string_lossy().starts_with(&prefix) {
+                let _ = std::fs::remove_dir_all(e.path());
+            }
+        }
+    }
     let tail: Vec<&str> = err.lines().rev().take(8).collect();
     let stderr_tail = tail.into_iter().rev().collect::<Vec<_>>().join("\n");
     let exit = if timed_out { None } else { status.and_then(|s| s.code()) };
